@@ -183,6 +183,7 @@ pub mod shim {
         fn read_u16_be(&mut self) -> (r: std::io::Result<u16>)
             ensures
                 (*final(self)).reliable() == (*old(self)).reliable(),
+                (*final(self)).greedy() == (*old(self)).greedy(),
                 r matches Ok(v) ==> (*old(self)).remaining().len() >= 2
                     && v == be16((*old(self)).remaining()) && crate::advanced(&*old(self), &*final(self), 2),
                 r is Err ==> (*final(self)).src_eq(&*old(self))
@@ -195,6 +196,7 @@ pub mod shim {
         fn read_u32_be(&mut self) -> (r: std::io::Result<u32>)
             ensures
                 (*final(self)).reliable() == (*old(self)).reliable(),
+                (*final(self)).greedy() == (*old(self)).greedy(),
                 r matches Ok(v) ==> (*old(self)).remaining().len() >= 4
                     && v == be32((*old(self)).remaining()) && crate::advanced(&*old(self), &*final(self), 4),
                 r is Err ==> (*final(self)).src_eq(&*old(self))
@@ -207,6 +209,7 @@ pub mod shim {
         fn read_u32_le(&mut self) -> (r: std::io::Result<u32>)
             ensures
                 (*final(self)).reliable() == (*old(self)).reliable(),
+                (*final(self)).greedy() == (*old(self)).greedy(),
                 r matches Ok(v) ==> (*old(self)).remaining().len() >= 4
                     && v == le32((*old(self)).remaining()) && crate::advanced(&*old(self), &*final(self), 4),
                 r is Err ==> (*final(self)).src_eq(&*old(self))
@@ -219,6 +222,7 @@ pub mod shim {
         fn read_u64_le(&mut self) -> (r: std::io::Result<u64>)
             ensures
                 (*final(self)).reliable() == (*old(self)).reliable(),
+                (*final(self)).greedy() == (*old(self)).greedy(),
                 r matches Ok(v) ==> (*old(self)).remaining().len() >= 8
                     && v == le64((*old(self)).remaining()) && crate::advanced(&*old(self), &*final(self), 8),
                 r is Err ==> (*final(self)).src_eq(&*old(self))
